@@ -66,7 +66,7 @@ static std::string value(Rng& r, int depth) {
 // a program over the statement vocabulary whose expressions come from the lattice
 static std::string vocabulary_program(Rng& r) {
   std::string s; int n = (int)r.range(2, 10);
-  s += "va = " + scalar(r) + ";\nvt = " + TABS[r.below(sizeof(TABS) / sizeof(*TABS))] + ";\nvu = " + TUPS[r.below(5)] + ";\n";
+  s += "wc2 = 0;\nva = " + scalar(r) + ";\nvt = " + TABS[r.below(sizeof(TABS) / sizeof(*TABS))] + ";\nvu = " + TUPS[r.below(5)] + ";\n";
   if (r.chance(0.12)) { // a function declared, called, declared again in the same unit with another frame layout, called again (well-formed: the calls succeed)
     int extra = (int)r.range(0, 6); std::string loc; for (int k = 0; k < extra; ++k) loc += "  l" + std::to_string(k) + " = " + (k % 2 ? "str(q) + \"x\"" : "q + " + std::to_string(k)) + ";\n";
     std::string first = "function fr(p, q:integer) return integer is\nbegin\n  return q + 1;\nend;\n", second = "function fr(p, q:integer) return integer is\nbegin\n" + loc + "  for le in 1 to 2 loop\n    lf = le + q;\n  end loop;\n  return lf;\nend;\n";
@@ -75,7 +75,14 @@ static std::string vocabulary_program(Rng& r) {
     if (r.chance(0.6)) return s; }   // on its own: an ill-typed statement further down would have the whole unit refused before anything runs
   for (int i = 0; i < n; ++i) {
     std::string v = value(r, (int)r.range(1, 3));
-    switch (r.below(14)) {
+    switch (r.below(19)) {
+    // loop control variables written, re-typed, nulled or shadowed by the body; iterator names that collide with the traversed table
+    case 14: s += "for fj in " + value(r, 1) + " to " + value(r, 1) + " loop\n  fj = " + v + ";\n  if wc2 > 2 then break; end if;\n  wc2 = wc2 + 1;\nend loop;\n"; break;
+    case 15: { std::string it = r.pick(std::vector<std::string>{"vt", "va", "x0", "fk"}); s += "forall " + it + " in " + std::string(r.chance(0.7) ? "vt" : v) + " loop\n  print " + (r.chance(0.7) ? it : value(r, 1)) + ";\n" + (r.chance(0.5) ? "  break;\n" : "") + "end loop;\n"; break; }
+    case 16: s += "forall fk in vt loop\n  fk = " + (r.chance(0.5) ? std::string(r.pick(std::vector<std::string>{"null", "int()", "str()", "tab()", "fk"})) : v) + ";\nend loop;\n"; break;
+    // statements that evaluate an expression while the text is compiled
+    case 17: s += std::string(r.chance(0.5) ? "include " : "import ") + value(r, 1) + ";\n"; break;
+    case 18: s += "for fj in " + std::string(r.pick(std::vector<std::string>{"1 to 3", "3 to 1", "1 to 9223372036854775807", "(-9223372036854775807 - 1) to 0 desc", "1 to 3 step 2"})) + " loop\n  " + std::string(r.pick(std::vector<std::string>{"fj = int();", "fj = null;", "fj = fj - 1;\n  wc2 = wc2 + 1;\n  if wc2 > 5 then break; end if;", "fj = 9223372036854775807;", "fj = (-9223372036854775807 - 1);", "fj = fj;"})) + "\nend loop;\n"; break;
     case 0: s += "x" + std::to_string(r.below(3)) + " = " + v + ";\n"; break;
     case 1: s += "print " + v + ";\n"; break;
     case 2: s += "put " + v + " " + scalar(r) + ";\n"; break;
